@@ -2,6 +2,7 @@ package main
 
 import (
 	"fmt"
+	"math/rand"
 	"os"
 	"sort"
 	"strings"
@@ -139,6 +140,7 @@ type Worker struct {
 	reportedOnce map[string]bool
 	notes       map[string]bool
 	randConcrete bool
+	rng         *rand.Rand
 	lits        map[int]bool // term id → value asserted on this path
 }
 
@@ -638,9 +640,15 @@ func (w *Worker) runPath(h *Harness, prefix []Decision) (end string, err error) 
 	for _, v := range w.pathViol {
 		key := v.Assert + "|" + v.Kind + "|" + v.Site
 		s.ViolCount[key]++
-		if s.ViolCount[key] <= 3 {
+		// keep up to 3 per assertion, plus up to 5 more whose input values differ from those kept
+		vk := key + "|" + valuesKey(v.Values)
+		if s.ViolCount[key] <= 3 || (s.ViolCount[vk] == 0 && s.ViolCount[key+"|distinct"] < 5) {
+			if s.ViolCount[key] > 3 {
+				s.ViolCount[key+"|distinct"]++
+			}
 			s.Violations = append(s.Violations, v)
 		}
+		s.ViolCount[vk]++
 	}
 	if err != nil && len(s.Errors) < 5 {
 		s.Errors = append(s.Errors, err.Error())
@@ -804,4 +812,17 @@ func pathHash(ds []Decision) uint64 {
 		h *= 1099511628211
 	}
 	return h
+}
+
+func valuesKey(m map[string]uint64) string {
+	ks := make([]string, 0, len(m))
+	for k := range m {
+		ks = append(ks, k)
+	}
+	sort.Strings(ks)
+	var sb strings.Builder
+	for _, k := range ks {
+		fmt.Fprintf(&sb, "%s=%d;", k, m[k])
+	}
+	return sb.String()
 }
